@@ -177,7 +177,8 @@ theorem fq_tagDone (s : St) (name : String) (result : List Nat) (st : Started)
       · next ot hot =>
         split
         · next hd =>
-          have hd' : ot.defn = snap.defn := by simpa using hd
+          have hdg : ot.defn = snap.defn ∧ ot.gen = snap.gen := by simpa using hd
+          have hd' : ot.defn = snap.defn := hdg.1
           have hsf := hf jn snap held ot hj hot hd'
           have hW : W (tdTag snap ot (ofList result)) = W ot := by
             simp only [W, tdTag, hsf.1, hsf.2]
@@ -334,12 +335,12 @@ theorem topo_addTag (s : St) (name color defn : String) (f : Facts) (st : Starte
             split
             · exact ht
             · rename_i hany
-              have hp1 : (atPair s (atTag color defn f isMark) f isMark).1 = s := by
+              have hp1 : (atPair s (atTagG s.ngen color defn f isMark) f isMark).1 = s := by
                 unfold atPair; split <;> rfl
-              have hp2 : (atPair s (atTag color defn f isMark) f isMark).2.refs = (atTag color defn f isMark).refs := by
+              have hp2 : (atPair s (atTagG s.ngen color defn f isMark) f isMark).2.refs = (atTag color defn f isMark).refs := by
                 unfold atPair; split <;> rfl
               rw [hp1]
-              apply topo_atFinish s name _ isMark st hs
+              apply topo_atFinish { s with ngen := s.ngen + 1 } name _ isMark st hs
               · cases hg : sget s.tags name with
                 | none => rfl
                 | some v => rw [hg] at hsome; simp at hsome
